@@ -9,7 +9,9 @@
    type and storage format; the result must be the NumPy expression on the dense matrices, carry
    the composed labels / type / shape, and ill-composed operands must raise.
 """
+import copy
 import json
+import pickle
 import os
 import sys
 
@@ -167,7 +169,14 @@ def apply_real(op, a, b, rng):
         Y = B if vb is None else vb @ vb.conj().T
         return a.overlap(b), np.trace(X.conj().T @ Y), None
     if op == "call":
-        return a(b), None, None
+        # an operator applied to a ket, a superoperator applied to an operator (through column stacking) or to a ket
+        # (its projector)
+        if a.issuper:
+            X = B if not b.isket else B @ B.conj().T
+            n_out = int(np.prod(a.dims[0][0]))
+            Y = (A @ X.reshape(-1, 1, order="F")).reshape(n_out, -1, order="F")
+            return a(b), Y, a.dims[0]
+        return a(b), A @ B, [a.dims[0], b.dims[1]]
     if op == "matel":
         return None, None, None
     if op == "neg":
@@ -209,6 +218,14 @@ def composable(op, a, b):
         return a.dims == b.dims and (a.superrep == b.superrep or not a.issuper)
     if op in ("matmul", "mul"):
         return a.dims[1] == b.dims[0]
+    if op == "call":
+        if a.issuper:
+            if a.superrep not in (None, "super"):
+                return None
+            return (b.isoper and a.dims[1] == b.dims) or (b.isket and a.dims[1] == [b.dims[0], b.dims[0]])
+        if a.isoper and b.isket:
+            return a.dims[1] == b.dims[0]
+        return None
     if op == "overlap":
         if a.type not in ("ket", "bra", "oper") or b.type not in ("ket", "bra", "oper"):
             return False
@@ -237,8 +254,21 @@ def run_tree(rng, tier, rep):
     log = []
     for _ in range(steps):
         if rng.random() < 0.55:
-            op = str(rng.choice(["add", "sub", "matmul", "mul", "overlap"]))
+            op = str(rng.choice(["add", "sub", "matmul", "mul", "overlap", "call"]))
             a, b = pool[int(rng.integers(0, len(pool)))], pool[int(rng.integers(0, len(pool)))]
+            if op == "call":
+                # maps applied to states of matching size: the right labels, or the same size under other labels
+                sups = [q for q in pool if q.issuper and q.superrep in (None, "super")] or [qutip.to_super(qutip.Qobj(ident(n_, n_, rng), dims=[d_, d_])) for d_, n_ in [([2, 2], 4)]]
+                a = sups[int(rng.integers(0, len(sups)))]
+                din = a.dims[1][0]
+                nin = int(np.prod(din))
+                lab = RELABEL.get(nin, [din])[int(rng.integers(0, len(RELABEL.get(nin, [din]))))] if rng.random() < 0.5 else din
+                b = qutip.Qobj(ident(nin, nin, rng), dims=[lab, lab]) if rng.random() < 0.7 else qutip.Qobj(ident(nin, 1, rng), dims=[lab, [1] * len(lab)])
+            elif rng.random() < 0.25:
+                # an object that went through pickling / deep copying is the same object as far as labels go
+                b = pickle.loads(pickle.dumps(a)) if rng.random() < 0.5 else copy.deepcopy(a)
+                if op in ("add", "sub") and not (a == b) and np.all(np.isfinite(a.full())):
+                    viol.append(("eq-after-pickle", f"{a.type}{a.dims}: an object and its pickled / deep-copied self do not compare equal", log[-3:]))
             if rng.random() < 0.35:
                 # near miss: the same shape under other labels, in either order
                 rb = relabelled(a, rng)
